@@ -70,6 +70,24 @@ def run_sel_case(case, pname, occ=0):
     for ln, pos in case['rowlen'].items():
         check('rowlenselect(%s)' % ln, lambda: etl.rowlenselect(t, int(ln)), pos)
         check('rowlenselect(%s, complement)' % ln, lambda: etl.rowlenselect(t, int(ln), complement=True), rest(pos))
+    # predicates returning non-bool truth values (the cell itself / None / ''): selection is by truthiness, XOR complement
+    tpos = case['sel']['true']
+    check('select(field, lambda v: v)', lambda: etl.select(t, fld, lambda v: v), tpos)
+    check('select(field, lambda v: v, complement)', lambda: etl.select(t, fld, lambda v: v, complement=True), rest(tpos))
+    check('select(field, lambda v: None if falsy)', lambda: etl.select(t, fld, lambda v: (v or None) and 'yes'), tpos)
+    check('select(field, returns "")', lambda: etl.select(t, fld, lambda v: '' if v is None else [v], complement=True), rest(tpos))
+    try:
+        y2, n2 = etl.biselect(t, fld, lambda v: v)
+        check('biselect(field)[0]', lambda: y2, tpos)
+        check('biselect(field)[1]', lambda: n2, rest(tpos))
+    except Exception as e:
+        problems.append('biselect(field) raised %r' % (e,))
+    # whole-row search with an anchored pattern: a row matches iff SOME cell, rendered as text, matches
+    if pname in ('text', 'ints'):
+        import re as _re
+        pat = '^' + _re.escape(str(ref)) + '$'
+        check('search(whole row, %r)' % pat, lambda: etl.search(t, pat), case['anycell'])
+        check('searchcomplement(whole row, %r)' % pat, lambda: etl.searchcomplement(t, pat), rest(case['anycell']))
     # row predicates (Record access; a missing field reads as `missing`), biselect, facet
     pos = case['sel']['none']
     check('select(lambda rec)', lambda: etl.select(t, lambda r: r[fld] is None), pos)
@@ -227,7 +245,7 @@ def run(tier, seed):
     r2, v2 = common.validate('SelectTrace', bad, name='SelectTraceBad')
     ok = v2[1][0] != 0
     chk.binding_demo = {'corrupted': 'last selected row removed from the recorded output', 'verdict': list(v2[1]), 'rejected_as_expected': ok}
-    if not ok:
+    if not ok and not chk.violations:
         raise tlc.MachineryError('binding demo failed')
     # SelectGen has no state space of its own; its laws are evaluated as assumptions (counted as one obligation set)
     chk.states += 1
